@@ -83,6 +83,30 @@ func TestGovcReplay(t *testing.T) {
 			established = true
 		}
 	}
+	// the real analyser on binary vector operations without on(): series of the two sides that
+	// agree on all labels but the metric name must meet in one shard, so a `without` scope has to
+	// name __name__ (and a `by` scope must not) — for arithmetic, comparison and set operators
+	for _, op := range []string{"+", "-", "*", "/", "==", "!=", ">", "<", ">=", "<=", "> bool", "and", "or", "unless"} {
+		for _, q := range []string{"foo %s bar", "foo %s ignoring(x) bar", "sum without (pod) (foo) %s sum without (pod) (bar)"} {
+			query := fmt.Sprintf(q, op)
+			an, err := (&QueryAnalyzer{}).Analyze(query)
+			if err != nil || !an.IsShardable() {
+				continue
+			}
+			has := false
+			for _, l := range an.ShardingLabels() {
+				if l == "__name__" {
+					has = true
+				}
+			}
+			if !an.ShardBy() && !has {
+				add(fmt.Sprintf("query %q is sharded without %v: the metric name takes part in the shard hash, the two sides of the operation are not co-located", query, an.ShardingLabels()))
+			}
+			if an.ShardBy() && has {
+				add(fmt.Sprintf("query %q is sharded by %v, which includes the metric name", query, an.ShardingLabels()))
+			}
+		}
+	}
 	if len(msgs) > 0 {
 		fmt.Println("REPLAY: reproduced:", strings.Join(msgs, "; "))
 		t.Fail()
